@@ -45,7 +45,8 @@ def program_strategy_c(draw, cfg, cache):
         mode = draw(st.sampled_from(MODES))
         fn = 'f%d' % k
         k += 1
-        body = {'ok': [['write']], 'raise_before': [['raise'], ['write']], 'raise_after': [['write'], ['raise']],
+        rs = draw(gen.raise_stmt)
+        body = {'ok': [['write']], 'raise_before': [rs, ['write']], 'raise_after': [['write'], rs],
                 'no_create': [], 'nonjson': [['write'], ['ret_nonjson']]}.get(mode)
         if body is None:
             rest = [o for o in outs if o != tgt]
